@@ -5,6 +5,7 @@ import (
 	"go/types"
 	"math"
 	"math/big"
+	"net"
 	"strconv"
 	"strings"
 	"time"
@@ -743,11 +744,14 @@ func (m *Machine) idealHash(kind string, outLen int, in []*Term) []*Term {
 				m.addPC(tt.Implies(tt.Eq(ap.dig, digest), m.bytesEq(ap.in, in)), false)
 			}
 		}
-		// ideal hash: a digest never equals the all-zero value (the code's "empty hash" sentinel)
-		if w := 8 * outLen; w <= 64 {
+		// ideal hash: a digest is never a "structured" value chosen independently of the hash: its bytes 2..9
+		// are not all zero (probability 2^-64 for a real hash). This excludes the all-zero sentinel and the
+		// sparse symbolic 32-byte values harnesses use for leaves / forged roots. Short digests: non-zero.
+		if outLen >= 16 {
+			mid := tt.Extract(8*(outLen-2)-1, 8*(outLen-10), digest)
+			m.addPC(tt.Not(tt.Eq(mid, tt.BVConst(64, 0))), false)
+		} else if w := 8 * outLen; w <= 64 {
 			m.addPC(tt.Not(tt.Eq(digest, tt.BVConst(w, 0))), false)
-		} else {
-			m.addPC(tt.Not(tt.Eq(digest, tt.wideConst(w, new(big.Int)))), false)
 		}
 		m.hashApps[kind] = append(apps, hashApp{in: in, out: out, dig: digest})
 	}
@@ -966,6 +970,92 @@ func registerMoreIntrinsics(m *Machine) {
 	I := m.intrinsic
 	tt := m.TT
 	registerCryptoIntrinsics(m)
+	// strings.Builder (its copy check uses unsafe): modelled on its buf field
+	sbBuf := func(a Value) *Cell {
+		p := a.(PtrV)
+		if p.IsNil() {
+			panic(m.rtPanic("nil", "nil *strings.Builder"))
+		}
+		return p.C.Kids[1]
+	}
+	sbAppend := func(m *Machine, a Value, bs []*Term) {
+		c := sbBuf(a)
+		cur, _ := c.V.(SliceV)
+		m.storeCell(c, m.appendOp(cur, m.sliceFromBytes(bs), types.NewSlice(types.Typ[types.Uint8])))
+	}
+	I["(*strings.Builder).WriteString"] = func(m *Machine, fr *frame, a []Value, c *ssa.CallCommon) Value {
+		sv := a[1].(StringV)
+		if sv.Opaque != nil {
+			panic(m.unsupported("strings.Builder.WriteString of an opaque string"))
+		}
+		sbAppend(m, a[0], sv.B)
+		return TupleV{tt.BVConst(64, uint64(len(sv.B))), IfaceV{}}
+	}
+	I["(*strings.Builder).WriteByte"] = func(m *Machine, fr *frame, a []Value, c *ssa.CallCommon) Value {
+		sbAppend(m, a[0], []*Term{a[1].(*Term)})
+		return IfaceV{}
+	}
+	I["(*strings.Builder).Write"] = func(m *Machine, fr *frame, a []Value, c *ssa.CallCommon) Value {
+		bs := m.bytesOfSlice(a[1].(SliceV))
+		sbAppend(m, a[0], bs)
+		return TupleV{tt.BVConst(64, uint64(len(bs))), IfaceV{}}
+	}
+	I["(*strings.Builder).WriteRune"] = func(m *Machine, fr *frame, a []Value, c *ssa.CallCommon) Value {
+		r, ok := m.concreteInt(a[1])
+		if !ok || r >= 0x80 {
+			panic(m.unsupported("strings.Builder.WriteRune of a symbolic or non-ASCII rune"))
+		}
+		sbAppend(m, a[0], []*Term{tt.BVConst(8, uint64(r))})
+		return TupleV{tt.BVConst(64, 1), IfaceV{}}
+	}
+	I["(*strings.Builder).String"] = func(m *Machine, fr *frame, a []Value, c *ssa.CallCommon) Value {
+		cur, _ := sbBuf(a[0]).V.(SliceV)
+		return StringV{B: m.bytesOfSlice(cur)}
+	}
+	I["(*strings.Builder).Len"] = func(m *Machine, fr *frame, a []Value, c *ssa.CallCommon) Value {
+		cur, _ := sbBuf(a[0]).V.(SliceV)
+		return tt.BVConst(64, uint64(cur.Len))
+	}
+	I["(*strings.Builder).Grow"] = func(m *Machine, fr *frame, a []Value, c *ssa.CallCommon) Value { return nil }
+	I["(*strings.Builder).Reset"] = func(m *Machine, fr *frame, a []Value, c *ssa.CallCommon) Value {
+		m.storeCell(sbBuf(a[0]), SliceV{})
+		return nil
+	}
+	// functions that are only ever called on concrete strings: executed natively
+	I["net.SplitHostPort"] = func(m *Machine, fr *frame, a []Value, c *ssa.CallCommon) Value {
+		s, ok := a[0].(StringV).Concrete()
+		if !ok {
+			panic(m.unsupported("net.SplitHostPort on a symbolic string"))
+		}
+		h, p, err := net.SplitHostPort(s)
+		if err != nil {
+			return TupleV{m.mkString(""), m.mkString(""), m.freshError("SplitHostPort")}
+		}
+		return TupleV{m.mkString(h), m.mkString(p), IfaceV{}}
+	}
+	I["strings.ToLower"] = func(m *Machine, fr *frame, a []Value, c *ssa.CallCommon) Value {
+		s, ok := a[0].(StringV).Concrete()
+		if !ok {
+			panic(m.unsupported("strings.ToLower on a symbolic string"))
+		}
+		return m.mkString(strings.ToLower(s))
+	}
+	I["strings.LastIndex"] = func(m *Machine, fr *frame, a []Value, c *ssa.CallCommon) Value {
+		s, ok := a[0].(StringV).Concrete()
+		sub, ok2 := a[1].(StringV).Concrete()
+		if !ok || !ok2 {
+			panic(m.unsupported("strings.LastIndex on a symbolic string"))
+		}
+		return tt.BVConst(64, uint64(strings.LastIndex(s, sub)))
+	}
+	I["strings.Index"] = func(m *Machine, fr *frame, a []Value, c *ssa.CallCommon) Value {
+		s, ok := a[0].(StringV).Concrete()
+		sub, ok2 := a[1].(StringV).Concrete()
+		if !ok || !ok2 {
+			panic(m.unsupported("strings.Index on a symbolic string"))
+		}
+		return tt.BVConst(64, uint64(strings.Index(s, sub)))
+	}
 	// math/rand: a source is an opaque object; every draw is a fresh nondeterministic value
 	I["math/rand.NewSource"] = func(m *Machine, fr *frame, a []Value, c *ssa.CallCommon) Value {
 		return IfaceV{T: opaqueRandType, V: OpaqueV{Kind: "randsource", ID: tt.IntConst64(0)}}
